@@ -53,6 +53,8 @@ pub struct Script {
     pub stall_before_status: Option<Duration>,
     /// (after this many body bytes, stall)
     pub stall_mid: Option<(usize, Duration)>,
+    /// slow but steady: the response goes out in pieces of this many bytes, each followed by this pause
+    pub dribble: Option<(usize, Duration)>,
 }
 
 impl Script {
@@ -66,6 +68,7 @@ impl Script {
             cut_in_head: None,
             stall_before_status: None,
             stall_mid: None,
+            dribble: None,
         }
     }
 }
@@ -295,6 +298,16 @@ pub fn write_response<S: Write>(s: &mut S, sc: &Script) -> bool {
             }
             piece_ends.push(wire.len());
         }
+    }
+    if let Some((n, d)) = sc.dribble {
+        for piece in wire.chunks(n.max(1)) {
+            if s.write_all(piece).is_err() {
+                return false;
+            }
+            let _ = s.flush();
+            std::thread::sleep(d);
+        }
+        return complete;
     }
     // stall in the middle: translate the body offset into a wire offset (approximation: head + offset)
     let stall_at = sc.stall_mid.map(|(off, d)| (head.len() + off.min(body_sent.len()), d));
